@@ -14,7 +14,13 @@ SETS = ['Debug', 'Clone', 'CopyClone', 'PartialEq', 'PartialOrd', 'Ord', 'Hash',
 NEUTRAL = {'ty': 'Ty', 'lt': 'l', 'tp': 'P', 'cp': 'CP', 'f0': 'g0', 'f1': 'g1', 'f2': 'g2', 'v0': 'W0', 'v1': 'W1'}
 
 
+RENAME = {'Ty': 'Tyq9', 'V0': 'Vq0', 'V1': 'Vq1', 'V2': 'Vq2', 'f0': 'fq0', 'f1': 'fq1', 'f2': 'fq2', 'T': 'Tq9', 'U': 'Uq9', 'N': 'Nq9', 'W': 'Wq9', 'Zz': 'Zq9', 'kk': 'kq9',
+          'fmt_m': 'fmtq9', 'clone_m': 'cloneq9', 'eq_m': 'eqq9', 'cmp_m': 'cmpq9', 'hash_m': 'hashq9', 'conv_m': 'convq9', 'm': 'mq9'}
+
+
 def harvest(binary):
+    """identifiers (and lifetimes) that occur in expansions but were not supplied by the input: the corpus is rendered with unusual
+    user-side identifiers, so that an ordinary name such as `a`, `T`, `N` or `H` that shows up in an expansion is known to come from a template"""
     ins = []
     for sh in K.xshapes('full'):
         for g in K.GROUPS:
@@ -22,17 +28,20 @@ def harvest(binary):
                 for c in K.group_configs(g, sh, 'small', partner):
                     ins.append(K.render(sh, c))
     ins.append('#[derive(Educe)] #[educe(Clone, Debug = E)] enum Ty {}')
+    pat = re.compile(r"(?<![A-Za-z0-9_'])(%s)(?![A-Za-z0-9_])" % '|'.join(sorted(RENAME, key=len, reverse=True)))
+    ins = [pat.sub(lambda m: RENAME[m.group(1)], t).replace("'a", "'ltq9") for t in ins]
     res = xp.expand_all(binary, ins, idents=True)
     ids = set()
     for r in res:
         ids.update(r.get('idents', []))
-    ids = {i for i in ids if i not in KEYWORDS and re.match(r'^[A-Za-z_][A-Za-z0-9_]*$', i)}
+    own = set(RENAME.values()) | {'ltq9', 'E', 'u8', 'u16', 'u32', 'u64', 'usize', 'bool', 'str', 'Vec'}
+    ids = {i for i in ids if i not in KEYWORDS and i not in own and re.match(r'^[A-Za-z_][A-Za-z0-9_]*$', i)}
     prefixes = set()
     for i in ids:
-        for fld in ('f0', 'f1', 'f2'):
+        for fld in ('fq0', 'fq1', 'fq2'):
             if i.endswith(fld) and i != fld:
                 prefixes.add(i[:-len(fld)])
-    plain = sorted(i for i in ids if i not in CORPUS_OWN and not any(i.endswith(f) and i != f for f in ('f0', 'f1', 'f2')))
+    plain = sorted(i for i in ids if not any(i.endswith(f) for f in ('fq0', 'fq1', 'fq2')))
     return plain, sorted(prefixes)
 
 
